@@ -42,7 +42,7 @@ Inductive target := TAcc (a : addr) | TTx (id : Z).
 (* what the caller submits (Parameters.Input): the idempotency fingerprint is computed from this *)
 Inductive input :=
 | ICreate (ps : list posting) (ts : option Z) (ref : str) (md : meta) (amd : list (addr * meta)) (force : bool)
-| IRevert (id : Z) (force : bool) (at_eff : bool)
+| IRevert (id : Z) (force : bool) (at_eff : bool) (rmeta : meta)
 | ISetMeta (t : target) (md : meta)
 | IDelMeta (t : target) (k : str).
 
